@@ -602,7 +602,7 @@ class FlowMixin:
                         conds.append(wv if wty[0] == "bool" else wv != NULL)
                     st.assume(z3.Implies(z3.Or(*conds), nv == ov))
         # rely conditions (registry): quantified over all objects of the class
-        for (cn, fields, when, why) in self.reg.relies:
+        for (cn, fields, when, why, r_ens) in self.reg.relies:
             x = z3.Const("rely!" + cn, RefS)
             xv = Val(REF(cn), x)
             fr = Frame(self.cur_func, None, spec=True)
@@ -619,7 +619,12 @@ class FlowMixin:
                 if old_arr is None:
                     old_arr = st.hs.initial(pre.epoch, key, sort)
                 eqs.append(z3.Select(new_arr, x) == z3.Select(old_arr, x))
-            self.assumptions_used.add("rely: %s.%s unchanged across my suspensions while %s (%s)" % (cn, "/".join(fields), when, why))
+            if r_ens:
+                s_new = st.copy()
+                s_new.old = pre
+                eqs.append(self.eval_clause(r_ens, s_new, frame=fr))
+            self.assumptions_used.add("rely: %s.%s unchanged%s across my suspensions while %s (%s)" % (
+                cn, "/".join(fields), (" and " + r_ens) if r_ens else "", when, why))
             st.assume(z3.ForAll([x], z3.Implies(z3.And(x != NULL, subclass(cls_of(x), cls_const(cn)), cond), z3.And(*eqs))))
         if c is None:
             return
